@@ -8,6 +8,8 @@ from .values import (
     SV,
     ObjRef,
     View,
+    StaticRec,
+    StaticRecClass,
     EnumVal,
     EnumClass,
     RecordClass,
@@ -353,6 +355,13 @@ class CallMixin:
                     return self.seq_to_arr(x, want, st)
                 return x
             raise Unsupported(f"list() of {x!r}")
+        if name == "dict" and len(args) == 1 and isinstance(args[0], (tuple, list)) and all(isinstance(p, tuple) and len(p) == 2 for p in args[0]):
+            out = {}
+            for k, v in args[0]:
+                if not isinstance(k, (EnumVal, int, str)):
+                    raise Unsupported("dict() from pairs with symbolic keys")
+                out[k] = v
+            return out
         if name == "tuple":
             (x,) = args
             if isinstance(x, (tuple, list)):
@@ -447,6 +456,13 @@ class CallMixin:
             if c is None:
                 raise Unsupported(f"no contract for {recv.cls}.{name}")
             return self.apply_contract(c, recv, args, kwargs, st, node)
+        if isinstance(recv, StaticRecClass) and name == "_make":
+            (x,) = args
+            items = self.concrete_items(x, st)
+            if len(items) != len(recv.fields):
+                self.safety(st, smt.FALSE, "_make arity")
+                raise Unsupported("_make arity mismatch")
+            return StaticRec(zip(recv.fields, items))
         if isinstance(recv, RecordClass) and name == "_make":
             (x,) = args
             items = self.concrete_items(x, st)
